@@ -656,6 +656,81 @@ fn string_case(rng: &mut Rng, case: &mut Case, text: String, family: Family) -> 
     }
 }
 
+
+// ---------------------------------------------------------------------------------------------
+// the command-line tool (simpcli) as a subprocess: disassemble -> assemble -> the same base64
+
+fn base64(data: &[u8]) -> String {
+    const A: &[u8; 64] = b"ABCDEFGHIJKLMNOPQRSTUVWXYZabcdefghijklmnopqrstuvwxyz0123456789+/";
+    let mut out = String::new();
+    for ch in data.chunks(3) {
+        let b = [ch[0], *ch.get(1).unwrap_or(&0), *ch.get(2).unwrap_or(&0)];
+        let n = (b[0] as u32) << 16 | (b[1] as u32) << 8 | b[2] as u32;
+        out.push(A[(n >> 18) as usize & 63] as char);
+        out.push(A[(n >> 12) as usize & 63] as char);
+        out.push(if ch.len() > 1 { A[(n >> 6) as usize & 63] as char } else { '=' });
+        out.push(if ch.len() > 2 { A[n as usize & 63] as char } else { '=' });
+    }
+    out
+}
+
+fn run_cli(cli: &str, args: &[&str]) -> Result<(bool, String, String), String> {
+    let o = std::process::Command::new(cli).args(args).output().map_err(|e| format!("cannot run {}: {}", cli, e))?;
+    Ok((o.status.success(), String::from_utf8_lossy(&o.stdout).into_owned(), String::from_utf8_lossy(&o.stderr).into_owned()))
+}
+
+fn simpcli_case(rng: &mut Rng, case: &mut Case, cli: &str, dir: &std::path::Path) -> Outcome {
+    let fuel = rng.urange(1, 24);
+    let (dag, _) = match gen_dag(rng, Family::Elements, fuel, 15) {
+        Some(x) => x,
+        None => return Outcome::Inconclusive("generator".into()),
+    };
+    case.desc = truncate(&dag.render(), 2500);
+    case.hash = Some(hash_str(&case.desc));
+    let order = ast::natural_order(&dag);
+    let c = match prog::build_commit(&dag, &order, None, Root::Program) {
+        Ok(c) => c,
+        Err(e) => return violated("well-typed-program-rejected", format!("{} ; {}", e, case.desc)),
+    };
+    let b64 = base64(&c.to_vec_without_witness());
+    let file = dir.join(format!("simpcli-{}-{}.simf", std::process::id(), case.idx));
+    let res = (|| -> Result<(), (String, String)> {
+        let h = |e: String| ("harness:simpcli".to_string(), e);
+        let (ok, text, err) = run_cli(cli, &["disassemble", &b64]).map_err(h)?;
+        if !ok {
+            return Err(("cli-disassemble-failed".into(), format!("simpcli disassemble {} failed: {}", b64, truncate(&err, 500))));
+        }
+        std::fs::write(&file, &text).map_err(|e| h(e.to_string()))?;
+        let f = file.to_string_lossy().into_owned();
+        let (ok, out, err) = run_cli(cli, &["assemble", &f]).map_err(h)?;
+        if !ok || out.trim().is_empty() {
+            return Err(("cli-assemble-failed".into(), format!("simpcli assemble of the disassembly of {} failed: {} ; text:\n{}", b64, truncate(&err, 600), truncate(&text, 2500))));
+        }
+        if out.trim() != b64 {
+            return Err(("cli-roundtrip-differs".into(), format!("disassemble + assemble turned {} into {} ; text:\n{}", b64, out.trim(), truncate(&text, 2500))));
+        }
+        let (ok, text2, err) = run_cli(cli, &["relabel", &f]).map_err(h)?;
+        if !ok {
+            return Err(("cli-relabel-failed".into(), format!("simpcli relabel failed: {}", truncate(&err, 500))));
+        }
+        std::fs::write(&file, &text2).map_err(|e| h(e.to_string()))?;
+        let (ok, out2, err) = run_cli(cli, &["assemble", &f]).map_err(h)?;
+        if !ok || out2.trim() != b64 {
+            return Err(("cli-relabel-roundtrip-differs".into(), format!("relabel + assemble turned {} into {} ({}) ; text:\n{}", b64, out2.trim(), truncate(&err, 300), truncate(&text2, 2500))));
+        }
+        Ok(())
+    })();
+    let _ = std::fs::remove_file(&file);
+    match res {
+        Ok(()) => {
+            case.count("simpcli.roundtrips");
+            if dag.len() >= 3 { Outcome::Held } else { Outcome::Trivial }
+        }
+        Err((s, d)) if s.starts_with("harness:") => Outcome::Inconclusive(d),
+        Err((s, d)) => violated(s, format!("{} ; program: {}", d, case.desc)),
+    }
+}
+
 pub fn run(ctx: &Ctx) {
     let t = ctx.tier;
     ctx.run_sub("program-roundtrip", Plan::sample(t.pick(40_000, 2_000_000), 0.3), |rng, case| program_case(rng, case));
@@ -684,6 +759,11 @@ pub fn run(ctx: &Ctx) {
         };
         string_case(rng, case, text, family)
     });
+    // the command-line tool, when the driver has built it (path in SIMPCLI)
+    if let Ok(cli) = std::env::var("SIMPCLI") {
+        let dir = ctx.out_dir.clone();
+        ctx.run_sub("simpcli-roundtrip", Plan::sample(t.pick(1_200, 60_000), 0.15), move |rng, case| simpcli_case(rng, case, &cli, &dir));
+    }
     // fixed source texts, one per defect class met so far (cheap regression vectors)
     const FIXED: &[(&str, &str)] = &[
         ("cmr-literal", "main := comp (pair (injl unit) unit) (assertl unit #abcd1234abcd1234abcd1234abcd1234abcd1234abcd1234abcd1234abcd1234)"),
